@@ -1,7 +1,7 @@
 /-
 C01 — property theorems.
 -/
-import TornadoModel.C01.Lemmas
+import TornadoModel.C01.Refine
 namespace TornadoModel.C01
 
 /-! ## 1. request line: exactly `token SP target SP HTTP/1.d` -/
@@ -293,17 +293,95 @@ theorem chunked_strict_last_terminator (cfg : Cfg) (s : St) (a b : Nat) (rest : 
 example : parseHexInt [49, 59, 120] = none := by decide      -- "1;x" (chunk extension)
 example : parseHexInt [49, 97, 70] = some 0x1aF := by decide
 
-/-! ## tie-only goals (stated, not proved) -/
+/-! ## 2b. chunked round trip -/
 
-/-- the incremental machine on the whole stream agrees with the batch reader `Spec.readAll` (finished requests and
-    how the stream ends).  Checked on every generated case through impl = Model and impl ⊨ Spec. -/
-def reqOf : Ev → Option (Str × Str × Str × List (Str × Str))
-  | .req m t v h => some (m, t, v, h)
-  | _ => none
+/-- `parse_hex_int` inverts `"%x" % n` on every natural number -/
+theorem parseHexInt_toHex_roundtrip (n : Nat) : parseHexInt (Spec.toHex n) = some n := parseHexInt_toHex n
 
-def model_eq_spec_goal : Prop :=
+/-- the *batch* strict decoder inverts the encoder: every list of non-empty chunks (each size line within the 64-byte
+    line limit, i.e. chunk length < 16^62) whose total is within the body limit decodes to its concatenation, and
+    whatever follows the last-chunk terminator is left over untouched -/
+theorem chunked_roundtrip_spec (limit : Nat) (cs : List Str) (rest : Str)
+    (hne : ∀ c ∈ cs, c ≠ [] ∧ c.length < 16 ^ 62) (hlim : cs.flatten.length ≤ limit) :
+    Spec.decodeChunks limit ((Spec.encodeChunks cs ++ rest).length + 1) 0 (Spec.encodeChunks cs ++ rest)
+      = .ok cs.flatten rest := by
+  apply decodeChunks_encodeChunks limit cs rest _ 0 _ hne (by omega)
+  have : ∀ l : List Str, l.length < (Spec.encodeChunks l).length := by
+    intro l
+    induction l with
+    | nil => simp [Spec.encodeChunks]
+    | cons c l ih => simp [Spec.encodeChunks]; omega
+  have := this cs
+  simp only [List.length_append]
+  omega
+
+/-- **chunked round trip through the machine**: for every request head that is accepted and announces
+    `Transfer-Encoding: chunked` (and no Content-Length), and every list `cs` of non-empty chunks within the size
+    limits, feeding `head ++ encodeChunks cs` makes the connection deliver: the request, (`100 Continue` if asked for),
+    the body `cs.flatten` — all `data_received` pieces of one resumption are merged into one `data` event, none when
+    there is no chunk —, then `finish()` and the response (and the close when the request is not persistent);
+    nothing else. -/
+theorem chunked_roundtrip (cfg : Cfg) (head m t v tev host : Str) (h : Hdrs) (ka : Bool) (cs : List Str)
+    (hend : findHeadEnd head = some head.length) (hfit : head.length ≤ cfg.maxHeader)
+    (hparse : parseHead head = some ((m, t, v), h))
+    (hka : canKeepAlive cfg.noKeepAlive m v h = some ka) (hhost : hostCheck v h = some host)
+    (hcl : hHas h kContentLength = false) (hte : hGet h kTransferEncoding = some tev) (hch : lower tev = kChunked)
+    (hne : ∀ c ∈ cs, c ≠ [] ∧ c.length < 16 ^ 62) (hlim : cs.flatten.length ≤ effLimit cfg 0) :
+    events (run cfg init [head ++ Spec.encodeChunks cs])
+      = [.req m t v (hAll h)] ++ (if hGet h kExpect = some k100Continue then [.w100] else [])
+        ++ (if cs.flatten = [] then [] else [.data 0 cs.flatten]) ++ [.fin, .w200]
+        ++ (if ka = true then [] else [.closed]) := by
+  have hbk : bodyKind (effLimit cfg 0) h = some .chunked := (bodyKind_chunked_iff _ h).mpr ⟨hcl, tev, hte, hch⟩
+  rw [run_chunked_request cfg head m t v h ka host cs hend hfit hparse hka hhost hbk hne hlim]
+  exact events_bodyDone_afterHead cfg m t v h ka _ _ _
+
+/-- the instance for a concrete head, with the default configuration: *every* chunk list round-trips -/
+theorem chunked_roundtrip_post (cs : List Str)
+    (hne : ∀ c ∈ cs, c ≠ [] ∧ c.length < 16 ^ 62) (hlim : cs.flatten.length ≤ 104857600) :
+    events (run {} init [postChunkedHead ++ Spec.encodeChunks cs])
+      = [.req [80, 79, 83, 84] [47] kHttp11 [(kHost, [120]), (kTransferEncoding, kChunked)]]
+        ++ (if cs.flatten = [] then [] else [.data 0 cs.flatten]) ++ [.fin, .w200] := by
+  have hp : parseHead postChunkedHead = some (([80, 79, 83, 84], [47], kHttp11), postChunkedHdrs) := by decide
+  have hx : hGet postChunkedHdrs kExpect = none := by decide
+  have ha : hAll postChunkedHdrs = [(kHost, [120]), (kTransferEncoding, kChunked)] := by decide
+  have := chunked_roundtrip {} postChunkedHead _ _ _ kChunked [120] _ true cs (by decide) (by decide) hp
+    (by decide) (by decide) (by decide) (by decide) (by decide) hne (by simpa [effLimit] using hlim)
+  rw [hx, ha] at this
+  simpa using this
+
+-- non-vacuity: hypotheses of `chunked_roundtrip` hold for the concrete head (above); a concrete chunk list
+example : Spec.encodeChunks [[97, 98, 99], [100]] = [51, 13, 10, 97, 98, 99, 13, 10, 49, 13, 10, 100, 13, 10, 48, 13, 10, 13, 10] := by
+  decide
+example : events (run {} init [postChunkedHead ++ Spec.encodeChunks [[97, 98, 99], [100]]])
+    = [.req [80, 79, 83, 84] [47] kHttp11 [(kHost, [120]), (kTransferEncoding, kChunked)], .data 0 [97, 98, 99, 100], .fin, .w200] := by
+  decide
+
+/-! ## 6. the machine agrees with the batch reader -/
+
+/-- the machine refines the batch strict reader: the request heads the batch reader `Spec.readAll` extracts from the
+    whole byte string are, in order, a prefix of the request heads the machine accepts (the machine may show one more
+    head to the delegate: that of a request whose body is still pending or is rejected later) -/
+theorem model_refines_spec (cfg : Cfg) (bytes : Str) :
+    (Spec.readAll cfg bytes).1.map headOf <+: (events (run cfg init [bytes])).filterMap reqOf := by
+  have h := refine_main cfg (bytes.length + 1) { init with buf := bytes } rfl (Nat.lt_succ_self _)
+  have e1 : run cfg init [bytes] = drain cfg { init with buf := bytes } := by simp [run, feed, St.app, init]
+  rw [e1]
+  simpa [reqsOf, init, Spec.readAll, events] using h
+
+/-- the incremental machine on the whole stream agrees with the batch reader `Spec.readAll` on the finished requests
+    (formerly the tie-only goal `model_eq_spec_goal`; also checked on every generated case through impl = Model and
+    impl ⊨ Spec). -/
+theorem model_eq_spec :
   ∀ (cfg : Cfg) (bytes : Str),
     ((events (run cfg init [bytes])).filterMap reqOf).take (Spec.readAll cfg bytes).1.length
-      = (Spec.readAll cfg bytes).1.map (fun r => (r.m, r.t, r.v, r.h))
+      = (Spec.readAll cfg bytes).1.map (fun r => (r.m, r.t, r.v, r.h)) := by
+  intro cfg bytes
+  have h := model_refines_spec cfg bytes
+  rw [List.prefix_iff_eq_take] at h
+  rw [List.length_map] at h
+  exact h.symm
+
+-- non-vacuity: two pipelined requests `GET / HTTP/1.1␍␊Host:x␍␊␍␊`, both extracted by the batch reader
+example : (Spec.readAll {} (getHead ++ getHead)).1.length = 2 := by decide
 
 end TornadoModel.C01
